@@ -3,6 +3,8 @@ package main
 import (
 	"bytes"
 	"fmt"
+	"os"
+	"strings"
 
 	"github.com/theQRL/go-qrllib/dilithium"
 
@@ -34,6 +36,17 @@ func c05Plan(tier string, seed uint64) (jobs []rt.Job) {
 	for b := 0; b < nk; b++ {
 		jobs = append(jobs, rt.Job{ID: fmt.Sprintf("C05/crafted/%d", b), Kind: "crafted", Cost: 2, Args: map[string]interface{}{"batch": b}})
 	}
+	// exact-boundary R1 witnesses: committed corpus re-generated and judged; thorough also searches for new ones
+	if n := len(readLines(corpusC05)); n > 0 {
+		for lo := 0; lo < n; lo += 4 {
+			jobs = append(jobs, rt.Job{ID: fmt.Sprintf("C05/r1corpus/%d", lo), Kind: "r1corpus", Cost: 1, Args: map[string]interface{}{"lo": lo, "hi": lo + 4}})
+		}
+	}
+	if !q {
+		for b := 0; b < 48; b++ {
+			jobs = append(jobs, rt.Job{ID: fmt.Sprintf("C05/r1search/%d", b), Kind: "r1search", Cost: 20, Args: map[string]interface{}{"batch": b, "msgs": 30, "tries": 100}})
+		}
+	}
 	// single-bit flips of whole signatures and public keys, split in ranges
 	nsig := 2
 	if !q {
@@ -56,6 +69,22 @@ func c05Plan(tier string, seed uint64) (jobs []rt.Job) {
 		}
 	}
 	return
+}
+
+const corpusC05 = "/verif/corpus/c05_r1_boundary.jsonl"
+
+func readLines(path string) []string {
+	b, err := os.ReadFile(path)
+	if err != nil {
+		return nil
+	}
+	var out []string
+	for _, l := range strings.Split(string(b), "\n") {
+		if strings.TrimSpace(l) != "" {
+			out = append(out, strings.TrimSpace(l))
+		}
+	}
+	return out
 }
 
 type c05Case struct {
@@ -136,6 +165,67 @@ func c05Run(j *rt.Job, seed uint64, r *rt.Rec) {
 	switch j.Kind {
 	case "crafted":
 		c05Crafted(j, rng, r)
+	case "r1search":
+		// signer holding the key, skipping only the norm test, looking for |z|max exactly gamma1-beta
+		ks := rng.Seed48()
+		ref := dilRefKey(ks)
+		for m := 0; m < j.Int("msgs"); m++ {
+			msg := rng.Bytes(8)
+			s1, att := ref.Sign(msg, dilref.Knobs{SkipZ: true, ExactZ: dilGamma1 - dilBeta, MaxTries: j.Int("tries")})
+			r.Eval(int64(len(att)))
+			r.Count("r1search_attempts", int64(len(att)))
+			if s1 == nil {
+				continue
+			}
+			last := att[len(att)-1]
+			sign := "pos"
+			if last.ZAtMaxNeg {
+				sign = "neg"
+				if last.ZAtMaxPos {
+					sign = "both"
+				}
+			}
+			r.Count("r1search_hits_"+sign, 1)
+			r.Observe("r1_witnesses", fmt.Sprintf(`{"seed":"%s","msg":"%s","kappa":%d,"sign":"%s"}`, rt.Hex(ks[:]), rt.Hex(msg), last.Kappa, sign))
+			if !c05Judge(r, "R1-z-exactly-at-bound-"+sign, ref.PK, msg, s1, "reject", true) {
+				return
+			}
+		}
+		r.Sample(map[string]interface{}{"r1search": j.Int("batch"), "seed": rt.Hex(ks[:8])})
+	case "r1corpus":
+		lines := readLines(corpusC05)
+		for i := j.Int("lo"); i < j.Int("hi") && i < len(lines); i++ {
+			var w struct {
+				Seed, Msg, Sign string
+				Kappa           int
+			}
+			if err := jsonUnmarshal(lines[i], &w); err != nil {
+				continue
+			}
+			var ks [48]byte
+			copy(ks[:], rt.UnHex(w.Seed))
+			ref := dilRefKey(ks)
+			msg := rt.UnHex(w.Msg)
+			s1, att := ref.Sign(msg, dilref.Knobs{SkipZ: true, ExactZ: dilGamma1 - dilBeta, StartKappa: w.Kappa, MaxTries: 1})
+			if s1 == nil || len(att) == 0 {
+				r.Count("r1corpus_stale_entries", 1)
+				continue
+			}
+			last := att[len(att)-1]
+			if ok, _ := dilref.VerifyLoose(ref.PK, msg, s1, dilref.Loose{ZNorm: true}); !ok {
+				r.Inconclusive("R1 corpus witness is not isolating")
+				return
+			}
+			sign := "pos"
+			if last.ZAtMaxNeg {
+				sign = "neg"
+			}
+			r.Count("R1_exact_bound_isolating_confirmed_"+sign, 1)
+			if !c05Judge(r, "R1-z-exactly-at-bound-"+sign, ref.PK, msg, s1, "reject", true) {
+				return
+			}
+			r.Sample(map[string]interface{}{"r1_exact_bound_witness": w.Seed[:16] + "..", "kappa": w.Kappa, "extreme_coefficient": sign, "zmax": last.MaxZ})
+		}
 	case "sigbits", "pkbits":
 		// the signature is a function of (seed, sig number) only, so all ranges flip the same signature
 		krng := rt.NewRand(seed, fmt.Sprintf("C05/bits/%d", j.Int("sig")))
